@@ -303,3 +303,95 @@ Definition model_walk_named (k : nat) (n : node) : list Z :=
   | Finished _ p => 0 :: flat_map (model_event true (suite_counts n)) (rev (out p))
   | Crashed _ _ => [-8]
   end.
+
+(* ------------------------------------------------------------------------------------------ *)
+(* declarations (expect_, always_expect_, never_expect_), the tally and a call nobody expected, on a
+   queue whose entries have their constraints; against Mocks.mstep *)
+Definition con_rec (c : mcon) : obj :=
+  match c with
+  | CTimes n => ORec [("type", VInt 8); ("expected_value.value.integer_value", VInt n); ("execute", VFun "execute_times")]
+  | CRet v => ORec [("type", VInt 4); ("expected_value.value.integer_value", VInt v); ("execute", VFun "execute_return")]
+  | CParam p ex => ORec [("type", VInt 0); ("expected_value.value.integer_value", VInt ex); ("execute", VFun "execute_param")]
+  end.
+
+(* append the constraint records of one list and their vector; returns the heap and the vector's pointer *)
+Definition alloc_cons (cs : list mcon) (h : list obj) : list obj * val :=
+  let base := List.length h in
+  let recs := map con_rec cs in
+  let ptrs := map (fun i => VPtr (base + i)%nat 0) (seq 0 (List.length cs)) in
+  (h ++ recs ++ [OVec ptrs], VPtr (base + List.length cs)%nat 0).
+
+Definition exp_rec_c (e : mexp) (cv : val) : obj :=
+  ORec [("function", VLit (fn_name (efn e))); ("test_file", VLit []); ("test_line", VInt (Z.of_nat (eline e)));
+        ("time_to_live", VInt (ettl e)); ("constraints", cv);
+        ("number_times_called", VInt (encalled e)); ("times_triggered", VInt (entrig e))].
+
+(* heap: 0 the queue, 1..n the entries, n+1 the successfully-mocked list, n+2 the reporter, n+3 the current test,
+   then the constraint objects *)
+Definition full_world (unl : Z) (q : list mexp) (succ : list nat) (mode : Z)
+                      (extra : list obj -> list obj * list (string * list val)) : world :=
+  let n := List.length q in
+  let base := [OVec (map (fun i => VPtr (S i) 0) (seq 0 n))] ++ map (fun e => exp_rec_c e (VInt 0)) q ++
+              [OVec (map (fun f => VLit (fn_name f)) succ);
+               ORec [("assert_true", VFun "assert_true")];
+               ORec [("filename", VLit []); ("line", VInt 0)]] in
+  (* give every entry its constraints *)
+  let h1 := fold_left (fun h ie =>
+              let '(h', cv) := alloc_cons (econs (snd ie)) h in
+              list_set (S (fst ie)) (exp_rec_c (snd ie) cv) h') (combine (seq 0 n) q) base in
+  let '(h2, str) := extra h1 in
+  mkw h2 [("global_expectation_queue", VPtr 0 0); ("UNLIMITED_TIME_TO_LIVE", VInt unl);
+          ("successfully_mocked_calls", VPtr (S n) 0); ("learned_mock_calls", VInt 0);
+          ("cgreen_mocks_are_", VInt mode); ("current_test", VPtr (S (S (S n))) 0)] str [].
+
+Definition reporter_ptr (q : list mexp) : val := VPtr (S (S (List.length q))) 0.
+
+(* what the reporter was told: (line, result) of every assert_true call and, for every execute call of a
+   times() constraint, (line, called = expected) *)
+Fixpoint told (w : world) (tr : list (string * list val)) (last_value : Z) : list Z :=
+  match tr with
+  | [] => []
+  | ("make_cgreen_integer_value", [VInt v]) :: r => told w r v
+  | ("assert_true", _ :: _ :: VInt line :: VInt res :: _) :: r => [line; res] ++ told w r last_value
+  | ("execute_times", c :: _ :: _ :: _ :: VInt line :: _) :: r =>
+      match get_field w c "expected_value.value.integer_value" with
+      | Fine (VInt n) => [line; if last_value =? n then 1 else 0]
+      | _ => [-9]
+      end ++ told w r last_value
+  | _ :: r => told w r last_value
+  end.
+
+Definition decl_result (r : cres (val * world)) : list Z :=
+  match r with
+  | Fine (v, w) => 0 :: told w (rev (wtrace w)) 0 ++ [-7] ++
+                   match alookup "global_expectation_queue" (globs w) with
+                   | Some (VInt 0) => [-5]            (* the queue has been destroyed *)
+                   | _ => queue_z w
+                   end
+  | Stuck _ => [-1]
+  | NoFuel => [-2]
+  end.
+
+Definition model_told (rs : list mres) : list Z := flat_map (fun r => [Z.of_nat (rline r); if rok r then 1 else 0]) rs.
+
+(* kind: 0 expect_, 1 always_expect_, 2 never_expect_ *)
+Definition code_declare (kind : nat) (unl : Z) (q : list mexp) (f line : nat) (cs : list mcon) : list Z :=
+  let name := match kind with O => "expect_" | S O => "always_expect_" | _ => "never_expect_" end in
+  let w := full_world unl q [] 0 (fun h =>
+             let '(h1, cv) := alloc_cons cs h in
+             let newexp := exp_rec_c (mkexp f line 0 cs 0 0) cv in
+             (h1 ++ [newexp],
+              [("constraints_vector_from_va_list", [cv]); ("create_recorded_expectation", [VPtr (List.length h1) 0])])) in
+  decl_result (run_fun prog_mocks (4 * List.length q + 2 * List.length cs + 20) name
+                       [reporter_ptr q; VLit (fn_name f); VLit []; VInt (Z.of_nat line)] w).
+Definition model_declare (kind : nat) (unl : Z) (q : list mexp) (f line : nat) (cs : list mcon) : list Z :=
+  let op := match kind with O => MExpect f line cs | S O => MAlways f line cs | _ => MNever f line cs end in
+  let '(s', rs, _) := mstep unl (mkms q MStrict []) op in
+  0 :: model_told rs ++ [-7] ++ model_queue_z (queue s').
+
+Definition code_tally (unl : Z) (q : list mexp) : list Z :=
+  let w := full_world unl q [] 0 (fun h => (h, [])) in
+  decl_result (run_fun prog_mocks (8 * List.length q + 40) "tally_mocks" [reporter_ptr q] w).
+Definition model_tally (unl : Z) (q : list mexp) : list Z :=
+  let '(s', rs, _) := mstep unl (mkms q MStrict []) MTally in
+  0 :: model_told rs ++ [-7; -5].
